@@ -1,7 +1,7 @@
 //vp:property C24
 //vp:pkg ./tsdb/chunks
 //vp:roots ./tsdb/chunkenc
-//vp:bounds chunks.Reader.ChunkOrIterable over one chunk segment given as an arbitrary byte string: header (magic, version) concrete, then 5..9 arbitrary bytes (thorough up to 12), arbitrary 64-bit chunk reference; CRC32 is an uninterpreted function of the exact byte sequence
+//vp:bounds chunks.Reader.ChunkOrIterable over a chunk segment given as an arbitrary byte string: header (magic, version) concrete, then 5..9 arbitrary bytes (thorough up to 12), optionally followed by a second zero-filled segment file, arbitrary 64-bit chunk reference (segment index and offset); CRC32 is an uninterpreted function of the exact byte sequence
 //vp:assume checksums are an uninterpreted function (whether CRC32 detects a given alteration is not decided); the pool hands out fresh chunk objects
 package chunks
 
@@ -26,7 +26,16 @@ func vpH_C24_chunkReader_bytes() {
 	for i := SegmentHeaderSize; i < len(seg); i++ {
 		seg[i] = vpByte()
 	}
-	r, err := newReader([]ByteSlice{realByteSlice(seg)}, nil, chunkenc.NewPool())
+	segs := [][]byte{seg}
+	bss := []ByteSlice{realByteSlice(seg)}
+	if vpShape("segments", 1, 2) == 2 { // a second, zero-filled segment file: the reader's total size exceeds the first segment's
+		seg2 := make([]byte, SegmentHeaderSize+16)
+		binary.BigEndian.PutUint32(seg2, MagicChunks)
+		seg2[MagicChunksSize] = chunksFormatV1
+		segs = append(segs, seg2)
+		bss = append(bss, realByteSlice(seg2))
+	}
+	r, err := newReader(bss, nil, chunkenc.NewPool())
 	if err != nil {
 		panic(err)
 	}
@@ -47,9 +56,13 @@ func vpH_C24_chunkReader_bytes() {
 	}
 	// accepted: re-derive the record boundaries from the bytes
 	sgm, start := int(ref>>32), int(ref&0xffffffff)
-	vpAssert(sgm == 0, "only an existing segment is read")
+	vpAssert(sgm >= 0 && sgm < len(segs), "only an existing segment is read")
+	if !(sgm >= 0 && sgm < len(segs)) {
+		return
+	}
+	seg = segs[sgm]
 	vpAssert(start >= 0 && start+MaxChunkLengthFieldSize <= len(seg), "record start inside the segment")
-	if !(sgm == 0 && start >= 0 && start+MaxChunkLengthFieldSize <= len(seg)) {
+	if !(start >= 0 && start+MaxChunkLengthFieldSize <= len(seg)) {
 		return
 	}
 	dataLen, k := binary.Uvarint(seg[start : start+MaxChunkLengthFieldSize])
